@@ -140,6 +140,7 @@ type Machine struct {
 	cacheHits int
 
 	hangLimit   int
+	maxSteps    int
 	quietFS     bool
 	mainProc    int
 	ifPos       token.Pos
@@ -610,7 +611,7 @@ func (m *Machine) callWith(fn *ssa.Function, args []Val, bind []Val) Val {
 		var next *ssa.BasicBlock
 		for _, in := range b.Instrs {
 			m.steps++
-			if m.steps > m.eng.maxSteps {
+			if m.steps > m.eng.maxSteps && m.steps > m.maxSteps {
 				panic(pathAbort{"cut: step budget"})
 			}
 			if m.hangLimit > 0 && m.steps > m.hangLimit {
